@@ -89,6 +89,11 @@ type kspec struct {
 	status  keyset.KeyStatus
 	primary bool
 	role    string
+
+	// JWT keys of the near-identical-kid section (kidtwins.go): the material with its jwt-independent
+	// verifier, and the custom kid of a vK key
+	jm     *jmat
+	custom string
 }
 
 func must[T any](v T, err error) T {
@@ -491,9 +496,17 @@ func issuerOf(v *jwt.VerifiedJWT) []byte {
 	return []byte(iss)
 }
 
+// forceCustomKID: when set, the custom kid of the next vK key built by genJWTMAC / genJWTSig (then reset).
+var forceCustomKID *string
+
 func customKID(v int, id uint32) string {
 	if v != vK {
 		return ""
+	}
+	if forceCustomKID != nil {
+		k := *forceCustomKID
+		forceCustomKID = nil
+		return k
 	}
 	return fmt.Sprintf("k%d", id%3)
 }
@@ -505,7 +518,8 @@ func genJWTMAC(kind, v int, id uint32, m *hlib.Rng, hdr []byte) *kspec {
 	s.label = "jwt-" + alg.String()
 	strat := map[int]jwthmac.KIDStrategy{vT: jwthmac.Base64EncodedKeyIDAsKID, vR: jwthmac.IgnoredKID, vK: jwthmac.CustomKID}[v]
 	ps := must(jwthmac.NewParameters(size, strat, alg))
-	s.key = must(jwthmac.NewKey(jwthmac.KeyOpts{KeyBytes: hlib.Secret(m.Bytes(size)), IDRequirement: idFor(v, id), CustomKID: customKID(v, id), HasCustomKID: v == vK, Parameters: ps}))
+	s.custom = customKID(v, id)
+	s.key = must(jwthmac.NewKey(jwthmac.KeyOpts{KeyBytes: hlib.Secret(m.Bytes(size)), IDRequirement: idFor(v, id), CustomKID: s.custom, HasCustomKID: v == vK, Parameters: ps}))
 	a := prim(s.key).(jwt.MAC)
 	s.produce = func(in probeIn) ([]byte, error) {
 		t, err := a.ComputeMACAndEncode(rawJWTOf(in))
@@ -531,7 +545,8 @@ func genJWTSig(kind, v int, id uint32, m *hlib.Rng, hdr []byte) *kspec {
 	ps := must(jwtecdsa.NewParameters(strat, alg))
 	d := scalar(m, n)
 	point := must(curve.NewPrivateKey(d)).PublicKey().Bytes()
-	pub := must(jwtecdsa.NewPublicKey(jwtecdsa.PublicKeyOpts{PublicPoint: point, IDRequirement: idFor(v, id), CustomKID: customKID(v, id), HasCustomKID: v == vK, Parameters: ps}))
+	s.custom = customKID(v, id)
+	pub := must(jwtecdsa.NewPublicKey(jwtecdsa.PublicKeyOpts{PublicPoint: point, IDRequirement: idFor(v, id), CustomKID: s.custom, HasCustomKID: v == vK, Parameters: ps}))
 	s.key = must(jwtecdsa.NewPrivateKeyFromPublicKey(hlib.Secret(d), pub))
 	sg := prim(s.key).(jwt.Signer)
 	vf := prim(pubOf(s.key)).(jwt.Verifier)
